@@ -131,6 +131,11 @@ def step (st : St) (toks : List String) : St × String :=
   if st.poisoned then (st, "?") else
   match toks with
   | ["pump"] => pumpLine st
+  | ["wping", tag] =>
+    -- the witness session (slot 7) pings: the PONG goes to its own inbox
+    match nat? tag, sidOf st 7 with
+    | some t, some sid => ({ st with sv := pushAll (runCmd st.sv sid (.ping t)) }, "pong")
+    | _, _ => (st, "bad-op")
   | ["attach", slot, host] =>
     match nat? slot, bytesOfTok host with
     | some sl, some h =>
